@@ -357,6 +357,7 @@ class SQLiteTrigger(BaseTrigger):
         now = datetime.now(UTC)
         expiration = now + timedelta(seconds=expiration_seconds)
         with sqlite_conn(self.sqlite_db_path) as conn:
+            conn.execute("BEGIN IMMEDIATE")  # check and claim under the write lock
             cursor = conn.execute(
                 f"SELECT expiration FROM {self.tables.EXECUTION_CLAIMS} WHERE claim_key = ?",
                 (claim_key,),
@@ -380,6 +381,7 @@ class SQLiteTrigger(BaseTrigger):
         now = datetime.now(UTC)
         expiration = now + timedelta(seconds=expiration_seconds)
         with sqlite_conn(self.sqlite_db_path) as conn:
+            conn.execute("BEGIN IMMEDIATE")  # check and claim under the write lock
             cursor = conn.execute(
                 f"SELECT expiration FROM {self.tables.TRIGGER_RUN_CLAIMS} WHERE trigger_run_id = ?",
                 (trigger_run_id,),
